@@ -584,10 +584,15 @@ func classifyIndex(p *Program, fn *ssa.Function, in ssa.Instruction, base, idx s
 			return s
 		}
 		tn := typeName(it)
-		if wireTypes[tn] {
+		_, enumLike := types.Unalias(it).(*types.Named)
+		switch {
+		case wireTypes[tn]:
 			s.detail = fmt.Sprintf("%d-entry table indexed by a %s without a bound check; values of this type are produced from reply bytes by the API, so rendering a returned value can panic", at.Len(), tn)
-		} else {
+		case enumLike:
 			s.ok, s.why = true, fmt.Sprintf("table indexed by %s: never produced from wire bytes by the API (caller-domain only)", tn)
+		default:
+			s.rule, s.kind = "P1", "index"
+			s.detail = fmt.Sprintf("%d-entry array indexed by an unbounded %s", at.Len(), tn)
 		}
 		return s
 	}
@@ -629,15 +634,25 @@ func classifyIndex(p *Program, fn *ssa.Function, in ssa.Instruction, base, idx s
 					s.ok, s.why = true, "constant index inside a slice literal"
 					return s
 				}
-				s.rule, s.kind = "P2", "table"
-				tn := typeName(idx.Type())
-				if cv, ok := idx.(*ssa.Convert); ok {
-					tn = typeName(cv.X.Type())
+				if loopBounded(in.Block(), idx, at.Len(), nil) || valBounds(in.Block(), idx).Intersect(complement(IntervalSet{{0, at.Len() - 1}})).Empty() {
+					s.ok, s.why = true, "index inside the slice literal by a dominating bound"
+					return s
 				}
-				if wireTypes[tn] {
+				s.rule, s.kind = "P2", "table"
+				it := idx.Type()
+				if cv, ok := idx.(*ssa.Convert); ok {
+					it = cv.X.Type()
+				}
+				tn := typeName(it)
+				_, enumLike := types.Unalias(it).(*types.Named)
+				switch {
+				case wireTypes[tn]:
 					s.detail = fmt.Sprintf("%d-entry table indexed by a %s without a bound check", at.Len(), tn)
-				} else {
+				case enumLike:
 					s.ok, s.why = true, fmt.Sprintf("table indexed by %s: never produced from wire bytes by the API (caller-domain only)", tn)
+				default:
+					s.rule, s.kind = "P1", "index"
+					s.detail = fmt.Sprintf("%d-entry slice literal indexed by an unbounded %s", at.Len(), tn)
 				}
 				return s
 			}
